@@ -52,7 +52,9 @@ def _ball(value):
 
 
 def regime(extent):
-    return "small" if extent < 0.03 else ("large" if extent > 30.0 else "unit")
+    # the absolute threshold 1e-8 on the squared residual admits relative deviations of about
+    # 1e-4 / extent^2: beyond 1 % below extent 0.1, beyond 0.1 % below extent 0.3
+    return "small" if extent < 0.3 else ("large" if extent > 30.0 else "unit")
 
 
 def _newell(P):
